@@ -411,10 +411,10 @@ def execute(ctx, cases, model_ok, res):
 def all_cases(ctx):
     rng = ctx.rng
     cases = vlib.load_corpus(PROP) + family_cases()
-    for _ in range(ctx.n(900, 9000)):
+    for _ in range(ctx.n(900, 5500)):
         cases.append(gen_case(rng, big=not ctx.quick))
     cases += family_race_cases()
-    for _ in range(ctx.n(200, 2500)):
+    for _ in range(ctx.n(200, 1500)):
         cases.append(gen_race_case(rng, big=not ctx.quick))
     return cases
 
